@@ -66,8 +66,9 @@ def run(prop, tier, seed, replay):
     from yaw.correlation.corrfunc import CorrFunc
     from yaw.redshifts import resample_jackknife
 
-    ck = Check(prop, tier, seed, kernels=KERNELS, theorems=THEOREMS,
-               lean_modules=["YawVerif.Props.C03"], rule=RULE,
+    # (the classes define no sampling / comparison / pickling method beyond those modelled: Yaw.C17.class_methods)
+    ck = Check(prop, tier, seed, kernels=KERNELS + ["k_algebra"], theorems=THEOREMS + ["Yaw.C17.class_methods"],
+               lean_modules=["YawVerif.Props.C03", "YawVerif.Props.C17"], rule=RULE,
                assumptions=["einsum / np.cov / np.tile / np.delete behave as documented by numpy",
                             "float sums of integers below 2^53 are exact"])
     ck.translate()
